@@ -242,7 +242,16 @@ def replay(item: dict) -> dict:
     os.chdir(work)
     try:
         p = Parameters()
-        last_read_failed = False
+        if hist.get('prewrite'):
+            # a complete file with the default values, written by the driver (negative control only)
+            doc = {}
+            for r in rows:
+                section, name = r['key'].split('/')
+                v = untok(r['def'])
+                doc.setdefault(section, {})[name] = ('True' if v else 'False') if isinstance(v, bool) else v
+            if item.get('tamper') == 'flip_bool':
+                doc['Output']['generate_html'] = 'False'
+            write_toml(fname, doc)
         for j, st in enumerate(hist['steps']):
             k = st['k']
             ctx = dict(step=j + 1, op=[k, st['p'], st['v']], history=[[s['k'], s['p'], s['v']] for s in hist['steps'][:j + 1]])
